@@ -394,7 +394,10 @@ def unconfigureGen (cfg : Cfg) (st : St) (impl : String) : St :=
     (match st.w.py.pdbSaved with
      | [] => { st with w := st.w.fail }
      | x :: rest =>
-       if debuggingUnconfigure == ["pop", "set_trace:=popped[0]"] then
+       -- since 15c1e54 (F40): a live display that is still running is stopped, all three saved values are restored and the
+       -- cached debugger wrapper class is dropped (live displays and the `PytaskPDB` class attributes are not part of `Py`)
+       if debuggingUnconfigure == ["stop-live-if-started", "pop", "set_trace:=popped[0]", "pm:=popped[1]", "config:=popped[2]",
+                                   "wrapped:=None"] then
          { st with w := { st.w with py := { st.w.py with setTrace := x, pdbSaved := rest } } }
        else if debuggingUnconfigure == ["pop"] then
          { st with w := { st.w with py := { st.w.py with pdbSaved := rest } } }
@@ -418,9 +421,11 @@ def unconfigureGen (cfg : Cfg) (st : St) (impl : String) : St :=
 /-- what `build()` and the warnings plugin guarantee around the hooks: `pytask_unconfigure` is called unconditionally once
 configuration succeeded, `catch_warnings_for_item` runs the task inside `warnings.catch_warnings()`, and
 `warnings.pytask_post_parse` only registers the plugin unless `disable_warnings` (it never touches the process-wide
-`warnings.filters`: the model's `step (.postParse "warnings")` is the identity) -/
+`warnings.filters`: the model's `step (.postParse "warnings")` is the identity), `build.pytask_post_parse` — called after
+capturing has started — cannot raise (`with suppress(Exception)`) -/
 def frameFactsOk : Bool :=
-  warningsIsolated && warningsPostParseRegistersOnly && buildUnconfigureUnconditional && Generated.unconfigureAfterLadder
+  warningsIsolated && warningsPostParseRegistersOnly && buildPostParseTolerant && buildUnconfigureUnconditional &&
+  Generated.unconfigureAfterLadder
 
 /-! ### from `task.report_sections` to `report.sections` (reports.py) -/
 
